@@ -1,6 +1,7 @@
 package main
 
 import (
+	"fmt"
 	"github.com/simimpact/srsim/pkg/engine/event/handler"
 	"github.com/simimpact/srsim/pkg/engine/logging"
 	"math"
@@ -49,13 +50,13 @@ func (l *evLogger) Log(e any) {
 	l.w.trace = append(l.w.trace, term.C("ILog", term.I(l.id), term.Nat(x.H), term.I(x.V), term.B(x.C)))
 }
 
-func (w *evWorld) pop(lid int64) (x term.T, cancel bool, nested []term.T) {
+func (w *evWorld) pop(lid int64) (x term.T, cancel bool, acts []term.T) {
 	q := w.reacts[lid]
 	if len(q) == 0 {
 		return term.C("XAdd", term.I(0)), false, nil
 	}
 	w.reacts[lid] = q[1:]
-	_, a := term.Ctor(q[0]) // mkR x cancel nested
+	_, a := term.Ctor(q[0]) // mkR x cancel acts
 	return a[0], term.Bool(a[1]), term.List(a[2])
 }
 
@@ -77,6 +78,7 @@ func (w *evWorld) emit(h int, v int64) {
 	if h < 0 || h >= len(w.kinds) {
 		panic("emit on unknown handler")
 	}
+	w.trace = append(w.trace, term.C("IEmit", term.Nat(h), term.I(v)))
 	switch w.kinds[h] {
 	case "KSimple":
 		w.simple[h].Emit(ev{H: h, V: v})
@@ -94,24 +96,46 @@ func (w *evWorld) emit(h int, v int64) {
 	}
 }
 
-// body of every listener: record the call, run the nested emissions, then react
+// one operation of the component, from the top-level history or from inside a listener (then it
+// re-enters the real handlers while the outer Emit is still in its listener loop)
+func (w *evWorld) exec(o term.T) {
+	name, a := term.Ctor(o)
+	switch name {
+	case "OSub":
+		w.subscribe(int(term.Int(a[0])), term.Int(a[1]), term.List(a[2]))
+	case "OEmit":
+		w.emit(int(term.Int(a[0])), term.Int(a[1]))
+	case "OInit":
+		ls := []logging.Logger{}
+		ids := []term.T{}
+		for _, id := range term.List(a[0]) {
+			ls = append(ls, &evLogger{id: term.Int(id), w: w})
+			ids = append(ids, term.I(term.Int(id)))
+		}
+		logging.InitLoggers(ls...)
+		w.trace = append(w.trace, term.C("IInit", term.L(ids...)))
+	default:
+		panic("bad op " + name)
+	}
+}
+
+// body of every listener: record the call, run the script (re-entrant operations), then react
 func (w *evWorld) react(lid int64, h int, v int64) (int64, bool) {
 	w.trace = append(w.trace, term.C("ICall", term.I(lid), term.Nat(h), term.I(v)))
-	x, cancel, nested := w.pop(lid)
-	for _, n := range nested {
-		it := term.TupleItems(n)
-		w.emit(int(term.Int(it[0])), term.Int(it[1]))
+	x, cancel, acts := w.pop(lid)
+	for _, a := range acts {
+		w.exec(a)
 	}
 	return applyX(x, v), cancel
 }
 
 func (w *evWorld) subscribe(h int, prio int64, rs []term.T) {
+	if h < 0 || h >= len(w.kinds) {
+		panic("subscribe on unknown handler")
+	}
 	lid := w.nextID
 	w.nextID++
 	w.reacts[lid] = rs
-	if h < 0 || h >= len(w.kinds) {
-		return
-	}
 	switch w.kinds[h] {
 	case "KSimple":
 		w.simple[h].Subscribe(func(e ev) { w.react(lid, h, e.V) })
@@ -122,6 +146,7 @@ func (w *evWorld) subscribe(h int, prio int64, rs []term.T) {
 	case "KCancel":
 		w.cancel[h].Subscribe(func(e ev) bool { _, c := w.react(lid, h, e.V); return c }, int(prio))
 	}
+	w.trace = append(w.trace, term.C("ISub", term.I(lid), term.Nat(h), term.I(prio)))
 }
 
 func runEvents(in term.T) term.T {
@@ -150,26 +175,61 @@ func runEvents(in term.T) term.T {
 	logging.InitLoggers()
 	defer logging.InitLoggers()
 	for _, o := range term.List(it[1]) {
-		name, a := term.Ctor(o)
-		switch name {
-		case "OSub":
-			w.subscribe(int(term.Int(a[0])), term.Int(a[1]), term.List(a[2]))
-		case "OEmit":
-			w.emit(int(term.Int(a[0])), term.Int(a[1]))
-		case "OInit":
-			ls := []logging.Logger{}
-			for _, id := range term.List(a[0]) {
-				ls = append(ls, &evLogger{id: term.Int(id), w: w})
-			}
-			logging.InitLoggers(ls...)
-		}
+		w.exec(o)
 	}
-	return term.L(w.trace...)
+	return term.C("Obs", term.L(w.trace...))
 }
 
 // ---- generator ----
 
-func genReaction(r *term.Rng, nh int, depth int) term.T {
+// evGen carries the budgets that keep a history small: listeners per handler (sort.Sort is an insertion
+// sort, hence stable, only up to 12 elements), reactions and script operations in total
+type evGen struct {
+	r        *term.Rng
+	nh       int
+	kinds    []string
+	subs     []int
+	maxSubs  int
+	prios    []int64
+	big      bool
+	distinct map[int]int64
+	reacts   int // reactions generated so far (each is consumed by at most one listener call)
+	acts     int // script operations generated so far
+}
+
+func (g *evGen) prioFor(h int, around int64, haveAround bool) int64 {
+	if g.big {
+		// pairwise distinct priorities per handler, arriving out of order: 7*k mod 41 walks 0..40 without repeats
+		k := g.distinct[h]
+		g.distinct[h]++
+		return (7*k)%41 - 20
+	}
+	if haveAround && g.r.Chance(2, 3) {
+		// aimed at the running loop: before / same key / after the listener that subscribes
+		switch g.r.Intn(4) {
+		case 0, 1:
+			if around > math.MinInt64 {
+				return around - 1
+			}
+			return around
+		case 2:
+			return around
+		default:
+			if around < math.MaxInt64 {
+				return around + 1
+			}
+			return around
+		}
+	}
+	return term.Pick(g.r, g.prios)
+}
+
+func (g *evGen) canSub(h int) bool { return g.subs[h] < g.maxSubs }
+
+// a reaction of a listener of handler h (priority prio) at script nesting depth d
+func (g *evGen) reaction(h int, prio int64, d int) term.T {
+	r := g.r
+	g.reacts++
 	var x term.T
 	switch r.Intn(4) {
 	case 0:
@@ -181,44 +241,89 @@ func genReaction(r *term.Rng, nh int, depth int) term.T {
 	default:
 		x = term.C("XAdd", term.I(0))
 	}
-	nested := []term.T{}
-	if r.Chance(1, 4) {
-		for k := r.Range(1, 2); k > 0; k-- {
-			nested = append(nested, term.Tup(term.Nat(r.Intn(nh)), term.I(int64(r.Range(-9, 9)))))
+	acts := []term.T{}
+	if r.Chance(2, 5) && g.acts < 70 {
+		n := 1
+		if r.Chance(1, 3) {
+			n = 2
+		}
+		if r.Chance(1, 12) {
+			n = 3
+		}
+		for ; n > 0; n-- {
+			acts = append(acts, g.act(h, prio, d))
 		}
 	}
-	return term.C("mkR", x, term.B(r.Chance(1, 4)), term.L(nested...))
+	return term.C("mkR", x, term.B(r.Chance(1, 4)), term.L(acts...))
+}
+
+// one script operation of a listener of handler h: mostly aimed at h itself
+func (g *evGen) act(h int, prio int64, d int) term.T {
+	r := g.r
+	g.acts++
+	target := h
+	if r.Chance(1, 3) {
+		target = r.Intn(g.nh)
+	}
+	switch {
+	case r.Chance(9, 20) && g.canSub(target):
+		// Subscribe from inside the listener loop; the new listener may carry scripts itself
+		g.subs[target]++
+		p := g.prioFor(target, prio, target == h)
+		rs := []term.T{}
+		if d < 2 && g.reacts < 60 && r.Chance(1, 2) {
+			for k := r.Range(1, 2); k > 0 && g.reacts < 60; k-- {
+				rs = append(rs, g.reaction(target, p, d+1))
+			}
+		}
+		return term.C("OSub", term.Nat(target), term.I(p), term.L(rs...))
+	case r.Chance(1, 8):
+		ls := []term.T{}
+		for k := r.Intn(3); k > 0; k-- {
+			ls = append(ls, term.I(int64(100+len(ls)+r.Intn(2))))
+		}
+		return term.C("OInit", term.L(ls...))
+	default:
+		// the same event again (or another one)
+		return term.C("OEmit", term.Nat(target), term.I(int64(r.Range(-9, 9))))
+	}
 }
 
 func genEvents(r *term.Rng, idx int) term.T {
 	allKinds := []string{"KSimple", "KPriority", "KMutable", "KCancel"}
 	nh := r.Range(2, 6)
+	if r.Chance(1, 4) {
+		nh = r.Range(1, 2) // few handlers: everything collides on the same listener slice
+	}
 	kinds := []term.T{}
+	knames := []string{}
 	for i := 0; i < nh; i++ {
+		k := term.Pick(r, allKinds)
 		if i < 4 && nh >= 4 {
-			kinds = append(kinds, term.C(allKinds[i]))
-		} else {
-			kinds = append(kinds, term.C(term.Pick(r, allKinds)))
+			k = allKinds[i]
+		} else if nh <= 2 && r.Chance(2, 3) {
+			k = allKinds[1+r.Intn(3)]
 		}
+		kinds = append(kinds, term.C(k))
+		knames = append(knames, k)
 	}
 	nops := r.Range(3, 40)
 	ops := []term.T{}
-	subs := make([]int, nh)
+	g := &evGen{r: r, nh: nh, kinds: knames, subs: make([]int, nh), maxSubs: 12, distinct: map[int]int64{}}
 	// a small priority pool makes equal and negative priorities the norm
-	prios := []int64{-2, -1, 0, 0, 1, 5}
+	g.prios = []int64{-2, -1, 0, 0, 1, 5}
 	if r.Chance(1, 5) {
 		// extreme but valid priorities ("always first" / "always last" sentinels): differences that do
 		// not fit an int must still compare correctly
-		prios = []int64{math.MinInt64, math.MinInt64 + 1, -100, -1, 0, 1, 100, math.MaxInt64 - 1, math.MaxInt64}
+		g.prios = []int64{math.MinInt64, math.MinInt64 + 1, -100, -1, 0, 1, 100, math.MaxInt64 - 1, math.MaxInt64}
 	}
 	// big mode: more listeners on a handler than sort.Sort's insertion-sort bound (12) and than any small
 	// fixed buffer, all with pairwise distinct priorities (so every correct sort gives the same order)
-	bigMode := r.Chance(1, 6)
-	nextDistinct := map[int]int64{}
-	if bigMode {
+	g.big = r.Chance(1, 6)
+	if g.big {
 		nops = r.Range(30, 70)
+		g.maxSubs = 40
 	}
-	totalReacts := 0
 	if r.Chance(9, 10) {
 		ops = append(ops, term.C("OInit", term.L(term.I(100), term.I(101))))
 	}
@@ -226,38 +331,31 @@ func genEvents(r *term.Rng, idx int) term.T {
 		switch {
 		case r.Chance(1, 2):
 			h := r.Intn(nh)
-			if bigMode && r.Chance(2, 3) {
+			if g.big && r.Chance(2, 3) {
 				h = 0
 				if nh >= 4 {
 					h = 3 - r.Intn(3) // one of the priority / mutable / cancelable handlers
 				}
 			}
-			if subs[h] >= 12 && !bigMode { // sort.Sort is only insertion sort (stable) up to 12 elements
-				continue
-			}
-			if subs[h] >= 40 {
-				continue
-			}
-			subs[h]++
-			if bigMode {
-				// distinct priorities per handler, arriving out of order: 7*k mod 41 walks 0..40 without repeats
-				k := nextDistinct[h]
-				nextDistinct[h]++
-				pr := (7*k)%41 - 20
-				rs := []term.T{}
-				if r.Chance(1, 3) && totalReacts < 60 {
-					rs = append(rs, genReaction(r, nh, 0))
-					totalReacts++
+			if !g.canSub(h) {
+				if r.Chance(1, 4) {
+					ops = append(ops, term.C("OEmit", term.Nat(h), term.I(int64(r.Range(-9, 9)))))
 				}
-				ops = append(ops, term.C("OSub", term.Nat(h), term.I(pr), term.L(rs...)))
 				continue
 			}
+			g.subs[h]++
+			p := g.prioFor(h, 0, false)
 			rs := []term.T{}
-			for k := r.Intn(4); k > 0 && totalReacts < 60; k-- {
-				rs = append(rs, genReaction(r, nh, 0))
-				totalReacts++
+			if g.big {
+				if r.Chance(1, 3) && g.reacts < 40 {
+					rs = append(rs, g.reaction(h, p, 0))
+				}
+			} else {
+				for k := r.Intn(4); k > 0 && g.reacts < 60; k-- {
+					rs = append(rs, g.reaction(h, p, 0))
+				}
 			}
-			ops = append(ops, term.C("OSub", term.Nat(h), term.I(term.Pick(r, prios)), term.L(rs...)))
+			ops = append(ops, term.C("OSub", term.Nat(h), term.I(p), term.L(rs...)))
 		case r.Chance(1, 12):
 			ls := []term.T{}
 			for k := r.Intn(4); k > 0; k-- {
@@ -271,6 +369,37 @@ func genEvents(r *term.Rng, idx int) term.T {
 	return term.Tup(term.L(kinds...), term.L(ops...))
 }
 
+func countScript(m map[string]int, h int, rs []term.T, depth int) {
+	for _, rr := range rs {
+		_, ra := term.Ctor(rr)
+		if term.Bool(ra[1]) {
+			m["reaction_cancel"]++
+		}
+		for _, a := range term.List(ra[2]) {
+			n, aa := term.Ctor(a)
+			same := n != "OInit" && int(term.Int(aa[0])) == h
+			switch n {
+			case "OEmit":
+				m["script_emit"]++
+				if same {
+					m["script_emit_same_handler"]++
+				}
+			case "OSub":
+				m["script_subscribe"]++
+				if same {
+					m["script_subscribe_same_handler"]++
+				}
+				if depth+1 > m["_depth"] {
+					m["_depth"] = depth + 1
+				}
+				countScript(m, int(term.Int(aa[0])), term.List(aa[2]), depth+1)
+			case "OInit":
+				m["script_init_loggers"]++
+			}
+		}
+	}
+}
+
 func kindsEvents(in term.T) map[string]int {
 	m := map[string]int{}
 	it := term.TupleItems(in)
@@ -278,16 +407,15 @@ func kindsEvents(in term.T) map[string]int {
 		n, a := term.Ctor(o)
 		m[n]++
 		if n == "OSub" {
-			for _, rr := range term.List(a[2]) {
-				_, ra := term.Ctor(rr)
-				if len(term.List(ra[2])) > 0 {
-					m["reaction_with_nested_emit"]++
-				}
-				if term.Bool(ra[1]) {
-					m["reaction_cancel"]++
-				}
-			}
+			countScript(m, int(term.Int(a[0])), term.List(a[2]), 0)
 		}
+	}
+	// histories by depth of Subscribe-inside-script nesting (one count per history)
+	d := m["_depth"]
+	delete(m, "_depth")
+	m[fmt.Sprintf("history_script_subscribe_depth_%d", d)] = 1
+	if m["script_emit"]+m["script_subscribe"]+m["script_init_loggers"] > 0 {
+		m["history_reentrant"] = 1
 	}
 	return m
 }
